@@ -15,8 +15,10 @@ response) continues while it waits.
 The theorems are about `Model.Reader` (`run (init cap udp inbox) evs`): **every** receive-queue capacity (0, 1, N), both
 transports, **every** list of messages on the wire (distinct), **every** schedule `evs` of the socket reader, the loops
 (including loops that take a message although their `loopDone` is already closed — Go's `select` may do that), the
-handlers, time and close.  The first part (`exactly_once`, `dispatch_fifo`, `one_current_loop`) holds for *all*
-handlers.  The second part (`current_never_blocked`, `nested_any_depth`) holds for handlers whose first blocking
+handlers, time and close.  The first part (`exactly_once`, `exactly_once_across_replacement`, `replacement_moves_nothing`,
+`dispatch_fifo`, `one_current_loop`) holds for *all* handlers.  `exactly_once` is largely what a FIFO channel with one
+producer gives; the statements about loop replacement are not: they say that a message in the hands of a loop that
+has been replaced is neither lost nor processed again.  The second part (`current_never_blocked`, `nested_any_depth`) holds for handlers whose first blocking
 construct is preceded by a replacement request (`WF`); `doInternal_waits_preceded` shows that the connection's own
 `doInternal` / `waitForAcknowledge` have that form in today's source.  The library's other blocking operations do
 **not** (limiter, first notification of an observation on stream transports, ping): the full statement for them is
@@ -41,6 +43,47 @@ theorem exactly_once (cap : Nat) (udp : Bool) (inbox : List Msg) (hnd : inbox.No
   rw [inv.fifo] at h1
   simp only [List.append_assoc] at h1
   exact (List.nodup_append.mp h1).1
+
+/-- **exactly_once_across_replacement.** What the channel does not give by itself: for every schedule, whatever loops
+    have been replaced in the meantime (a replaced loop keeps running its handler, and may even take further messages),
+    every message that has been taken is *either* finished *or* in the hands of exactly one loop — never both, never
+    two loops, never lost when `TryToReplaceLoop` closes a loop's `loopDone` and starts another one —; a loop that is
+    not running a handler holds nothing; and no message finishes twice. -/
+theorem exactly_once_across_replacement (cap : Nat) (udp : Bool) (inbox : List Msg) (hnd : inbox.Nodup) (evs : List Event) :
+    let s := run (init cap udp inbox) evs
+    (∀ m ∈ s.started, (m ∈ s.finished ∧ ∀ l lp, s.loops l = some lp → lp.cur ≠ some m) ∨
+                      (m ∉ s.finished ∧ ∃ l lp, s.loops l = some lp ∧ lp.cur = some m ∧
+                         ∀ l' lp', s.loops l' = some lp' → lp'.cur = some m → l' = l)) ∧
+    (∀ l lp, s.loops l = some lp → lp.pc ≠ .running → lp.cur = none) ∧
+    (∀ m ∈ s.finished, m ∈ s.started) ∧ s.finished.Nodup := by
+  intro s
+  obtain ⟨_, _, ia⟩ := invQCA_run _ evs (invQ_init cap udp inbox hnd) (invC_init cap udp inbox) (invA_init cap udp inbox)
+  refine ⟨?_, ia.idle, ia.fin, ia.finNd⟩
+  intro m hm
+  rcases ia.acc m hm with hf | ⟨l, lp, h1, h2⟩
+  · left
+    refine ⟨hf, ?_⟩
+    intro l lp hl hc
+    exact (ia.curS l lp m hl hc).2 hf
+  · right
+    exact ⟨(ia.curS l lp m h1 h2).2, l, lp, h1, h2, fun l' lp' h1' h2' => ia.uniq l' l lp' lp m h1' h1 h2' h2⟩
+
+/-- **replacement_moves_nothing.** `TryToReplaceLoop` itself, in every reachable state: the queue, the reader's hand and
+    the lists of accepted / taken messages are untouched, every loop keeps the message it holds, and the new loop
+    starts with none. -/
+theorem replacement_moves_nothing (cap : Nat) (udp : Bool) (inbox : List Msg) (evs : List Event) :
+    let s := run (init cap udp inbox) evs
+    qview (tryReplace s) = qview s ∧
+    (∀ l lp, s.loops l = some lp → ∃ lp', (tryReplace s).loops l = some lp' ∧ lp'.cur = lp.cur) ∧
+    (∀ l lp', (tryReplace s).loops l = some lp' → s.loops l = none → lp'.cur = none) := by
+  intro s
+  have ic := invC_run _ evs (invC_init cap udp inbox)
+  have cp := curPres_tryReplace s ic
+  refine ⟨tryReplace_qview s, cp.fwd, ?_⟩
+  intro l lp' h1 h2
+  rcases cp.bwd l lp' h1 with ⟨lp, g1, _, _⟩ | ⟨g, _⟩
+  · rw [h2] at g1; cases g1
+  · exact g
 
 /-- **never_dropped** (corollary): while the connection is open, an accepted message has been dispatched or is still
     waiting for a loop. -/
@@ -167,6 +210,8 @@ end CoapVerif.Props.C11
 section Audit
 open CoapVerif.Props.C11
 #print axioms exactly_once
+#print axioms exactly_once_across_replacement
+#print axioms replacement_moves_nothing
 #print axioms never_dropped
 #print axioms dispatch_fifo
 #print axioms one_current_loop
